@@ -91,6 +91,9 @@ func DriverMain(spec PropSpec, tier string, seed uint64) int {
 	os.MkdirAll(work, 0o755)
 	os.RemoveAll(filepath.Join(root(), "replays", spec.ID))
 	a := &agg{counters: map[string]int64{}, lists: map[string]map[string]int64{}, phSamples: map[string]int{}, nt: map[uint64]struct{}{}, viol: map[string]*violAgg{}}
+	if os.Getenv("VERIF_COVER") != "" {
+		os.MkdirAll(filepath.Join(work, "cov"), 0o755)
+	}
 	for _, ph := range spec.Phases {
 		tp := time.Now()
 		runPhase(spec, ph, tier, seed, work, a)
@@ -156,6 +159,9 @@ func DriverMain(spec PropSpec, tier string, seed uint64) int {
 	for k, m := range a.lists {
 		cov[k] = m
 	}
+	if os.Getenv("VERIF_COVER") != "" {
+		cov["library_functions_entered_by_the_workload"] = functionCoverage(filepath.Join(work, "cov"))
+	}
 	if spec.Exhaustive != nil && spec.Exhaustive(tier) {
 		cov["exhaustive"] = true
 	}
@@ -218,8 +224,65 @@ func binPath(ph Phase) string {
 	p := filepath.Join(root(), "bin", ph.Bin)
 	if ph.Race {
 		p += ".race"
+	} else if os.Getenv("VERIF_COVER") != "" {
+		p += ".cover"
 	}
 	return p
+}
+
+// functionCoverage summarises the counters that coverage-instrumented children left in dir: per source file of the
+// library, how many functions the workload entered and which it never entered.
+func functionCoverage(dir string) map[string]any {
+	vgo := os.Getenv("VGO")
+	if vgo == "" {
+		vgo = "go"
+	}
+	out, err := exec.Command(vgo, "tool", "covdata", "func", "-i="+dir).Output()
+	if err != nil {
+		return map[string]any{"error": err.Error()}
+	}
+	type fc struct {
+		n, entered int
+		never      []string
+	}
+	files := map[string]*fc{}
+	for _, ln := range strings.Split(string(out), "\n") {
+		f := strings.Fields(ln)
+		if len(f) < 3 || !strings.Contains(f[0], "gopacket/gopacket/") {
+			continue
+		}
+		file := f[0][strings.Index(f[0], "gopacket/gopacket/")+len("gopacket/gopacket/"):]
+		if i := strings.Index(file, ":"); i >= 0 {
+			file = file[:i]
+		}
+		x := files[file]
+		if x == nil {
+			x = &fc{}
+			files[file] = x
+		}
+		x.n++
+		if f[len(f)-1] != "0.0%" {
+			x.entered++
+		} else {
+			x.never = append(x.never, f[1])
+		}
+	}
+	res := map[string]any{}
+	total, entered := 0, 0
+	for file, x := range files {
+		if x.entered == 0 {
+			continue // a file the workload never touched is outside what this property drives
+		}
+		total += x.n
+		entered += x.entered
+		e := map[string]any{"functions": x.n, "entered": x.entered}
+		if len(x.never) > 0 && len(x.never) <= 40 {
+			e["never_entered"] = x.never
+		}
+		res[file] = e
+	}
+	res["_summary"] = map[string]any{"files_touched": len(res), "functions_in_touched_files": total, "functions_entered": entered}
+	return res
 }
 
 func runBatch(spec PropSpec, ph Phase, tier string, seed uint64, work string, b, n, procs int, a *agg) {
@@ -240,6 +303,8 @@ func runBatch(spec PropSpec, ph Phase, tier string, seed uint64, work string, b,
 		cmd.Env = append(os.Environ(), "GOMAXPROCS="+strconv.Itoa(procs), "VERIF_ROOT="+root())
 		if ph.Race {
 			cmd.Env = append(cmd.Env, "GORACE=halt_on_error=0 exitcode=0 history_size=3 log_path="+out+".race")
+		} else if os.Getenv("VERIF_COVER") != "" {
+			cmd.Env = append(cmd.Env, "GOCOVERDIR="+filepath.Join(work, "cov"))
 		}
 		cmd.Env = append(cmd.Env, ph.Env...)
 		errPath := fmt.Sprintf("%s.run%d.stderr", out, run)
